@@ -10,6 +10,7 @@ converter) are judged.
 from __future__ import annotations
 
 import copy
+import gc
 import json
 
 from .. import observe, tokens
@@ -26,7 +27,7 @@ MAX_CONVERTERS = 8
 
 
 class Entry:
-    __slots__ = ("conv", "parents", "origin", "lite", "created_at", "mutated")
+    __slots__ = ("conv", "parents", "origin", "lite", "created_at", "mutated", "n_mut")
 
     def __init__(self, conv, parents, origin, created_at):
         self.conv = conv
@@ -35,6 +36,7 @@ class Entry:
         self.lite = None
         self.created_at = created_at
         self.mutated = False
+        self.n_mut = 0
 
 
 class C10Machine(Machine):
@@ -44,7 +46,7 @@ class C10Machine(Machine):
         "transitive_curie_remap_applied", "uri_remap_applied", "rewire_applied",
         "chain_merged_later_into_earlier", "discover_with_known_uris", "lineage_depth_ge_3",
         "sub_nonempty", "mutation_right_after_derivation", "chain_same_converter_twice",
-        "curie_remap_applied", "large_root", "followup_add_with_pattern", "same_record_followed_through_lineage", "empty_mapping", "empty_prefix_subset", "same_derivation_again", "alternating_lookups", "root_with_more_than_256_records",
+        "curie_remap_applied", "large_root", "followup_add_with_pattern", "same_record_followed_through_lineage", "empty_mapping", "empty_prefix_subset", "same_derivation_again", "alternating_lookups", "intermediate_converter_garbage_collected", "same_derivation_same_result", "root_with_more_than_256_records",
     ]
 
     @classmethod
@@ -95,6 +97,8 @@ class C10Machine(Machine):
         self.last_was_derivation = None
         self.last_mutation = None
         self.last_derivation_op = None
+        self.just_forgot = False
+        self.derived_before = {}
         self.nontrivial_hit = False
         self.unstated = 0
 
@@ -106,6 +110,14 @@ class C10Machine(Machine):
         if self.last_was_derivation is not None and rng.random() < cfg["p_mutate_after_derive"]:
             h = self.last_was_derivation
             return self._gen_mutate(rng, h)
+        if self.last_was_derivation is not None and not self.just_forgot and rng.random() < 0.15:
+            # the program drops its reference to an INPUT of the last derivation (a temporary in a call
+            # chain, a local of a helper): the object goes away, the derived converter lives on
+            parents = self.entries[self.last_was_derivation].parents
+            alive = [pid for pid in parents if self.entries[pid].conv is not None
+                     and any(pid in self._ancestors(i) for i in self.entries if i != pid)]
+            if alive:
+                return {"op": "forget", "h": rng.choice(alive)}
         if self.last_derivation_op is not None and len(self.entries) < cfg.get("max_converters", MAX_CONVERTERS) \
                 and rng.random() < 0.08:
             # the very same derivation once more: the result must again be new and independent
@@ -117,7 +129,7 @@ class C10Machine(Machine):
             # follow one record through the lineage: the same record is now merged into on a converter
             # that was derived (directly or not) from the one just modified
             h0, token = self.last_mutation
-            desc = [i for i in sorted(self.entries) if h0 in self._ancestors(i)]
+            desc = [i for i in sorted(self.entries) if h0 in self._ancestors(i) and self.entries[i].conv is not None]
             if desc:
                 h2 = rng.choice(desc)
                 op = self._gen_mutate(rng, h2)
@@ -147,17 +159,17 @@ class C10Machine(Machine):
         if kind == "new":
             return self._gen_new(rng)
         if kind == "mutate":
-            derived = [i for i, e in sorted(self.entries.items()) if e.parents]
+            derived = [i for i, e in sorted(self.entries.items()) if e.parents and e.conv is not None]
             if derived and rng.random() < 0.8:
                 h = rng.choice(derived)
             else:
-                h = rng.choice(sorted(self.entries))
+                h = rng.choice(sorted(i for i in self.entries if self.entries[i].conv is not None))
             return self._gen_mutate(rng, h)
         return getattr(self, "_gen_" + kind)(rng)
 
     def _pick(self, rng):
         # bias to recent converters so that lineages get deep
-        ids = sorted(self.entries)
+        ids = sorted(i for i in self.entries if self.entries[i].conv is not None)
         n = len(ids)
         if rng.random() < 0.5:
             return ids[n - 1 - min(int(rng.expovariate(1.0)), n - 1)]
@@ -168,6 +180,8 @@ class C10Machine(Machine):
         return self.next_id - 1
 
     def _recs(self, h):
+        if self.entries[h].conv is None:
+            return []
         return [observe.record_dump(r) for r in self.entries[h].conv.records]
 
     def _gen_new(self, rng):
@@ -429,7 +443,7 @@ class C10Machine(Machine):
         return 0 if not e.parents else 1 + max(self._depth(p) for p in e.parents)
 
     def _valid(self, h):
-        return h in self.entries
+        return h in self.entries and self.entries[h].conv is not None
 
     def apply(self, op):
         c = self.curies
@@ -453,6 +467,19 @@ class C10Machine(Machine):
             return {"new": h}
         if kind == "mutate":
             return self._mutate(op)
+        if kind == "forget":
+            h = op["h"]
+            if not self._valid(h) or self.entries[h].conv is None:
+                return {"skipped": "handle"}
+            # the converter object is released and collected; its lineage edges stay, so that its own
+            # ancestors are still re-observed when a descendant is modified
+            self.entries[h].conv = None
+            self.entries[h].lite = None
+            gc.collect()
+            self.event("forget")
+            self.probe("intermediate_converter_garbage_collected")
+            self.just_forgot = True       # the derived converter stays the favourite target of the next mutation
+            return {"forgot": h}
         return self._derive(op)
 
     def _derive(self, op):
@@ -495,7 +522,10 @@ class C10Machine(Machine):
         except Exception as e:  # noqa: BLE001 - which error is C09/C11/C12's business
             err = e
         self.event("derive_" + kind)
+        self.just_forgot = False
         self.last_derivation_op = {k: v for k, v in op.items() if k != "again"}
+        dkey = json.dumps({k: v for k, v in op.items() if k not in ("again", "out")}, sort_keys=True)
+        stamp = [self.entries[h].n_mut for h in hs]
         if op.get("again"):
             self.probe("same_derivation_again")
         if err is not None:
@@ -524,6 +554,8 @@ class C10Machine(Machine):
         anc = sorted({a for h in hs for a in self._ancestors(h)} - set(hs))
         for a in anc:
             e = self.entries[a]
+            if e.conv is None:
+                continue
             now = self._lite(e.conv)
             if now != e.lite:
                 raise Violation(PROP, changed_kind, site,
@@ -534,10 +566,21 @@ class C10Machine(Machine):
             if result is None or any(result is i for i in inputs):
                 raise Violation(PROP, "not_new_object", site, {"op": op})
             for oid, other in sorted(self.entries.items()):
-                if result is other.conv:
+                if other.conv is not None and result is other.conv:
                     # "return a new converter": an object that an earlier derivation already handed out is not new
                     raise Violation(PROP, "not_new_object", site, {"op": op, "same_object_as_converter": oid})
             h = self._add(result, hs, kind, op.get("out"))
+            # what an input hands out for the same request must not depend on what happened to an earlier
+            # result (the request is a query of the input, too)
+            rstruct = observe.structure(result, ordered=False)
+            prev = self.derived_before.get(dkey)
+            if prev is not None and prev[0] == stamp and prev[1] != rstruct:
+                raise Violation(PROP, "input_derives_differently", site,
+                                {"op": op, "diff": observe.diff(prev[1], rstruct),
+                                 "note": "same derivation, same arguments, inputs not modified in between"})
+            if prev is not None and prev[0] == stamp:
+                self.probe("same_derivation_same_result")
+            self.derived_before[dkey] = (stamp, rstruct)
             self._reach_after_derivation(kind, op, hs, result)
             self._alternate(result, sorted(set(hs)), None, site, "input_changed", op)
             self.last_was_derivation = h
@@ -600,6 +643,8 @@ class C10Machine(Machine):
         hit_inherited = False
         if hit_own:
             for a in anc:
+                if self.entries[a].lite is None:
+                    continue
                 for r in self.entries[a].lite["structure"]["records"]:
                     if tokens_c & {r["prefix"], *r["prefix_synonyms"]} or tokens_u & {r["uri_prefix"], *r["uri_prefix_synonyms"]}:
                         hit_inherited = True
@@ -623,6 +668,8 @@ class C10Machine(Machine):
         # stated direction 2: nothing leaks back into any (transitive) input of the mutated converter
         for a in anc:
             ae = self.entries[a]
+            if ae.conv is None:
+                continue
             now = self._lite(ae.conv)
             if now != ae.lite:
                 raise Violation(PROP, "leak_to_ancestor", site,
@@ -637,6 +684,7 @@ class C10Machine(Machine):
         # the mutated converter legitimately changed: refresh it
         e.lite = self._lite(e.conv)
         e.mutated = True
+        e.n_mut += 1
         self._refresh_unstated(exclude=set(anc) | {h})
         self._note("mutate_" + op["kind"], "rejected" if err else "accepted")
         return {"mutated": h, "rejected": type(err).__name__ if err else None}
@@ -649,7 +697,7 @@ class C10Machine(Machine):
         k = self.steps % max(1, len(self.strings))
         cands += [self.strings[k], self.strings[(k + 7) % len(self.strings)]]
         pcands = [pr for pr in self.pairs if hint and pr[0] == hint][:1] + [self.pairs[self.steps % len(self.pairs)]]
-        for a in far_ids[:3]:
+        for a in [x for x in far_ids if self.entries[x].conv is not None][:3]:
             ae = self.entries[a]
             for x in dict.fromkeys(cands):
                 observe.answers(near, [x], [], full=False)
@@ -673,7 +721,7 @@ class C10Machine(Machine):
     def _refresh_unstated(self, exclude):
         """Descendants / siblings: a direction the property does not state. Count, refresh, never report."""
         for i, e in sorted(self.entries.items()):
-            if i in exclude:
+            if i in exclude or e.conv is None:
                 continue
             # cheap test first (records, views, index dictionaries); this direction is never reported,
             # the point is only to keep the baseline of the stated directions honest
@@ -683,16 +731,20 @@ class C10Machine(Machine):
                 e.lite = self._lite(e.conv)
 
     def _note(self, kind="op", outcome=None):
-        self.note_state([e.lite["structure"]["records"] for _, e in sorted(self.entries.items())], kind, outcome)
+        self.note_state([e.lite["structure"]["records"] for _, e in sorted(self.entries.items()) if e.lite is not None], kind, outcome)
 
     def recover(self, op):
         for e in self.entries.values():
+            if e.conv is None:
+                continue
             e.lite = self._lite(e.conv)
 
     def finish(self):
         # end of run: every converter against its latest legitimate baseline (catches a change that
         # reached a converter by a route the per-step checks did not look at)
         for i, e in sorted(self.entries.items()):
+            if e.conv is None:
+                continue
             now = self._lite(e.conv)
             if now != e.lite:
                 site = SITE.get(e.origin, e.origin)
